@@ -40,7 +40,8 @@ def gen_cases(tier, seed):
                 gid += 1
     # the bound must not depend on what the files look like or on other options either
     variants = [("empty-files", [], "empty"), ("options", ["--fsync", "--backup", "numbered", "--gitignore"], "mixed"), ("deref+links", ["-L"], "links"),
-                ("sparse-files", ["--no-perms", "--ownership"], "sparse"), ("many-dirs", [], "dirs"), ("links+specials", ["--ownership"], "nodes"), ("many-sources", [], "sources")]
+                ("sparse-files", ["--no-perms", "--ownership"], "sparse"), ("many-dirs", [], "dirs"), ("links+specials", ["--ownership"], "nodes"), ("many-sources", [], "sources"),
+                ("tolerated-failures", ["--ownership"], "xattrs"), ("backup-every-file", ["--backup", "numbered"], "mixed")]
     for vi, (vname, extra, content) in enumerate(variants):
         for driver in ("parblock", "parfile"):
             if tier == "quick" and (vi + (driver == "parfile")) % 2:
@@ -90,6 +91,8 @@ def run_case(case):
                     f.write(blk[:bs])
                 else:
                     f.write(blk[:size])
+            if content == "xattrs":
+                os.setxattr(fp, b"user.k", b"v")
         if content == "options":
             pass
         if "--backup" in case.get("extra", []):
@@ -105,6 +108,9 @@ def run_case(case):
             # hundreds of sources on the command line (every directory of the tree is named individually)
             os.makedirs(os.path.join(b(root), b"dst"))
             args = args[:-2] + ["src/d%03d" % d for d in range(ndirs)] + ["dst"]
+        if content == "xattrs":
+            plan["rules"] = [{"id": "o", "sys": "fchown", "under": root + "/", "action": "fault", "errno": 1},
+                             {"id": "x", "sys": "fsetxattr", "under": root + "/", "action": "fault", "errno": 95}]
         run = core.run_xcp(sb, args, plan)
         if run.verdict != "exited":
             res["inconc"].append("run-" + run.verdict)
